@@ -2,6 +2,7 @@
 import vlib
 import rescommon as rc
 import c01
+import reccommon as rec
 from vlib import Verdict, workdir, rng
 
 PID = "C10"
@@ -35,6 +36,10 @@ def run(tier):
             longest = max(longest, sum(1 for x in run_["result"]["rrs"] if x["type"] == "CNAME"))
     v.notes["tv_outcomes"] = errs
     v.notes["longest_chain_returned"] = longest
+    # the recursive / forwarding runs as behaviours of the resolver state machine (Recursive.tla): drift only
+    rec.conformance(v, wd, lines, chunk=200)
+    # Inv_C10_Chain on the resolver state machine: universes with alias loops, local aliases leaving local data
+    rec.explore(v, PID, wd, r_, tier, only=["local zones", "hostile"])
     if lines:
         v.sample({"mode": lines[0]["mode"], "question": lines[0]["runs"][0]["q"], "result": lines[0]["runs"][0]["result"]})
     v.distinct = v.evaluations
